@@ -139,6 +139,10 @@ func InstallObserveHook(run *evid.Run) {
 	default:
 		return
 	}
+	hx.OnStepProblem = func(step, problem string) {
+		c, _ := caseOf.Load(goid())
+		run.Violate(run.Prop+"/forged-entry-admitted", det("step", strings.SplitN(step, "(", 2)[0]), map[string]any{"case": c, "step": step}, "%s: %s", step, problem)
+	}
 	hx.OnObserve = func(o *hx.Obs) {
 		if len(o.Differ) == 0 {
 			return
